@@ -1,4 +1,18 @@
 import RedisGoModel.Props.C19ConcLin
+/-! # C19, concurrent: delivery logs, the linearizability theorem, and what is false
+
+* `LogInv` (every reachable state): for every connection `c` and channel `ch`, what `c` has received on `ch` is what the
+  specification has delivered after the linearization so far, followed by the message of the Send that currently holds the
+  channel's object if that Send has already written to `c` (`inflight`: written, not yet linearized).
+* `pubsub_linearizable_partial` — PER-CHANNEL linearizability (statement in its docstring).  `_partial` because
+  (a) the delivery logs are compared per (connection, channel): for the interleaving of different channels in one connection's
+      log the full statement is FALSE — `cross_channel_order_not_linearizable`, a kernel-checked run of the model (two Sends on
+      two channels, two common subscribers, each Send writing to its subscribers one by one) — and the Go code behaves like the
+      model there (`Send` holds only its own channel's lock while it writes);
+  (b) "each completed operation has EXACTLY one entry in `lin`" is proved as "at least one, inside its interval"; that no second
+      entry carries the same tag is true by construction (`lpd`) but not stated as a theorem.
+* connection death is an environment step that only enables write failures; a prune is linearized as the specification's
+  `unsubscribe` of that connection from that channel at the prune step. -/
 set_option linter.unusedSimpArgs false
 set_option linter.unusedVariables false
 namespace PSC
